@@ -69,18 +69,30 @@ RunAct(e, i) ==
      THEN [op |-> e.a.op, k |-> k, v |-> e.a.v + e.dv * i, s |-> e.a.s]
      ELSE [op |-> e.a.op, k |-> k]
 
-(* a run is applied RunChunk calls per step, through the methods as functions (LRU!FDo) *)
-RunChunk == 1000
-RECURSIVE FRun(_, _, _, _)
-FRun(s, e, i, j) == IF i >= j THEN s ELSE FRun(FDo(s, RunAct(e, i)), e, i + 1, j)
+(* a run is applied RunChunk calls per step, through the methods as functions (LRU!FDo); the fold *)
+(* is SequencesExt!FoldLeft, which TLC evaluates in Java (a recursive operator in TLA+ builds a    *)
+(* chain of unevaluated arguments and is slower by orders of magnitude)                             *)
+RunChunk == 4096
+SX == INSTANCE SequencesExt
+FRun(s, e, i, j) == SX!FoldLeft(LAMBDA acc, x : FDo(acc, RunAct(e, x)), s, [y \in 1..(j - i) |-> i + y - 1])
 
+(* A run whose actions repeat with period per (keys cycle modulo km, one value): if one period    *)
+(* leaves the state as it was except for the eviction counter, so does every following period     *)
+(* (LRU!EvictFree: no method looks at that counter) - the whole periods left are applied at once.  *)
 TRun ==
   /\ l <= Len(TraceLog)
   /\ LET e == TraceLog[l] IN
        /\ e.ev = "run" /\ rep < e.n
        /\ e.a.op \in {"set", "setnx", "get"}     \* methods whose reply carries nothing / is dropped
-       /\ LET j == IF rep + RunChunk < e.n THEN rep + RunChunk ELSE e.n
-              t == FRun(FSt, e, rep, j)
+       /\ LET per  == IF e.km > 0 /\ e.dv = 0 THEN e.km ELSE 0
+              left == e.n - rep
+              s1   == IF per > 0 /\ left >= 2 * per THEN FRun(FSt, e, rep, rep + per) ELSE FSt
+              skip == per > 0 /\ left >= 2 * per /\ [s1 EXCEPT !.evict = evict] = FSt
+              m    == left \div per
+              step == IF per > 0 THEN per ELSE RunChunk
+              j    == IF skip THEN rep + m * per ELSE IF rep + step < e.n THEN rep + step ELSE e.n
+              t    == IF skip THEN [FSt EXCEPT !.evict = evict + m * (s1.evict - evict)]
+                      ELSE FRun(FSt, e, rep, j)
           IN /\ order' = t.order /\ val' = t.val /\ sz' = t.sz /\ size' = t.size /\ evict' = t.evict
              /\ UNCHANGED <<cap, sized>>
              /\ last' = RunAct(e, j - 1)
